@@ -234,6 +234,9 @@ package handlers
 //@   requires a != nil && a.proxyService != nil && w != nil && r != nil && r.URL != nil && trans != nil && pr != nil && pr.requestLogger != nil && pr.stats != nil
 //@   requires allocated(ghost(w).hdr)
 //@   modifies gvar pxCalls, gvar pxEndpoints, gvar pxPath, gvar pxBody, gvar pxErr, gvar pxStarted, gvar lastEncoded, ghost started, ghost status, ghost hdr, ghost(w).hdr[all], ghost encW, ghost remaining, ghost backing, ports.RequestStats.RoutingDecision, object pr.stats, gvar unflushed, gvar wBytes, pr.hadError, http.Request.Body
+// the error returns are taken for their stated reasons only: the engine failed / the backend's success body is not JSON
+//@   at return 1 assert pxErr != nil && err == pxErr
+//@   at return 3 assert jerr != nil && recorder.status < 400 && pxErr == nil
 //@   ensures pxCalls == old(pxCalls) + 1 && pxEndpoints == endpoints && pxPath == old(r.URL.Path) && pxBody == old(ghost(r.Body).remaining)
 //@   ensures res == nil ==> ghost(w).started
 //@   ensures !old(ghost(w).started) && ghost(w).started && ghost(w).status >= 400 ==> pr.hadError
